@@ -23,6 +23,7 @@ func init() {
 }
 
 func runC02(ctx *Ctx) {
+	defer runScale(ctx, "", nil, func(c *Case) error { return checkC02(ctx, c) })
 	n := ctx.N(4000, 40000)
 	for _, t := range ctx.types() {
 		t := t
@@ -73,6 +74,7 @@ func implDet(p proto.Message) (out []byte, err error) {
 }
 
 func checkC02(ctx *Ctx, c *Case) error {
+	scaleBytes(c)
 	t, err := mustType(c.Type)
 	if err != nil {
 		return err
